@@ -32,6 +32,40 @@ pub fn replay(path: &str) -> i32 {
             }
             0
         }
+        "query-history" => {
+            // replay the recorded history in this thread against a real directory, then ask the last
+            // question again from a fresh thread in a directory that only ever held the final contents
+            let root = scratch.fresh_dir("hist");
+            let (mut lib, mut sib) = (0usize, 0usize);
+            crate::families::queryhist::write_disk(&root, lib, sib);
+            let mut last = (String::new(), String::new(), String::new());
+            for ev in r["history"].as_array().cloned().unwrap_or_default() {
+                let ev = ev.as_str().unwrap_or("").to_string();
+                if let Some(rest) = ev.strip_prefix("write(") {
+                    let v = if rest.ends_with("B)") { 1 } else { 0 };
+                    if rest.starts_with("Lib/") { lib = v } else { sib = v }
+                    crate::families::queryhist::write_disk(&root, lib, sib);
+                    println!("{}", ev);
+                } else if let Some(rest) = ev.strip_prefix("ask(") {
+                    let key = rest.trim_end_matches(')');
+                    let marked = r["texts"][key].as_str().unwrap_or("").to_string();
+                    let kind = key.split('/').next().unwrap_or("").to_string();
+                    let got = crate::families::queryhist::ask(&root, &kind, &marked);
+                    println!("{} -> {}", ev, got);
+                    last = (kind, marked, got);
+                }
+            }
+            let fresh_dir = scratch.fresh_dir("fresh");
+            crate::families::queryhist::write_disk(&fresh_dir, lib, sib);
+            let (k, m) = (last.0.clone(), last.1.clone());
+            let fresh = std::thread::spawn(move || crate::families::queryhist::ask(&fresh_dir, &k, &m)).join().unwrap_or_default();
+            println!("fresh thread, same contents -> {}", fresh);
+            if fresh != last.2 {
+                println!("REPRODUCED: the answer depends on the history");
+                return 1;
+            }
+            0
+        }
         "project" | "determinism" => {
             let files: Vec<(String, String)> = r["files"].as_array().map(|a| a.iter().map(|f| (f[0].as_str().unwrap_or("").to_string(), f[1].as_str().unwrap_or("").to_string())).collect()).unwrap_or_default();
             let proj = crate::projects::Project { name: "replay".into(), files, expected_stdout: None };
